@@ -688,7 +688,7 @@ def run(ctx):
     drv = ctx.driver("drv_c29")
     exe = ctx.harness("harness/c/engine_repl.c", "engine_repl", deps=["harness/mjbuild.h"])
     if drv and exe:
-        stats, mism = run_models(ctx, exe, drv, 40 if quick else 1500)
+        stats, mism = run_models(ctx, exe, drv, 40 if quick else 600)
         ok = stats["bitwise_bad"] == 0 and stats["bitwise_cases"] > 0
         import json
         ctx.oblige("correspondence Lean passive-force model (Float) vs qfrc_spring / qfrc_damper / qfrc_passive / qfrc_gravcomp of the real engine, bitwise (%d cases)" % stats["bitwise_cases"],
